@@ -526,7 +526,10 @@ static void run_seq(const leafspec *sp, int n, int maxlevel, int alg, int leaf_a
 			snprintf(key, sizeof key, "%.*s", (int)strcspn(p + 8, "\n"), p + 8);
 			for (i = 0; i < 16 && known[i].key[0]; i++) if (strcmp(known[i].key, key) == 0) ki = i;
 			if (ki >= 0) snprintf(sig, sizeof sig, "%s", known[ki].sig);
-			else st = run_in_own_process(sp, n, maxlevel, alg, leaf_alg, 0, buf, sizeof buf);
+			else {
+				st = run_in_own_process(sp, n, maxlevel, alg, leaf_alg, 0, buf, sizeof buf);
+				if (vf_replaying()) fprintf(stderr, "---- sanitizer report of the case body ----\n%s\n", buf);
+			}
 		}
 		if (!sig[0]) {
 			/* same signature scheme as the runner: crash:<kind>:<first libksi function> */
